@@ -30,7 +30,9 @@ type liveCfg struct {
 	sets []int
 }
 
-func (l liveCfg) String() string { return fmt.Sprintf("%s|%d|%v", filepath.Base(l.base), l.dflt, l.sets) }
+func (l liveCfg) String() string {
+	return fmt.Sprintf("%s|%d|%v", filepath.Base(l.base), l.dflt, l.sets)
+}
 
 // reload scenarios: the agent serves configuration `old`; the file is replaced by `new` and SIGHUP sent.
 func suiteV18(c *vctx) {
@@ -70,13 +72,20 @@ func suiteV18(c *vctx) {
 			ld.BaseDir = d
 			ld.Init("root", "Root-Passw0rd")
 			ld.AddUser("probe", "Probe-in-"+filepath.Base(d), false)
+			ld.AddUser("flight", "Flight-0", false)
 		}
-		st, err := NewStore(cfgPath, "", "", "", "")
+		// upgrade mode of the agent: the reload must be all-or-nothing and lose no request in any of them
+		mode := []string{"", "local", "local", "http://127.0.0.1:1/api/update"}[r.Intn(4)]
+		st, err := NewStore(cfgPath, mode, "", "", "")
 		if err != nil {
 			c.emit("law.C18.agent_starts "+vxs(err.Error()), "f")
 			continue
 		}
 		iface := st.GetInterface()
+		flightBoot := map[string][]byte{}
+		for _, d := range []string{dirA, dirB} {
+			flightBoot[d], _ = os.ReadFile(filepath.Join(d, "flight.user"))
+		}
 		// the new configuration
 		kind := []string{"valid-other-dir", "valid-other-default", "valid-other-sets", "unparsable", "unknown-key", "bad-default",
 			"no-basedir", "dir-missing", "dir-invalid", "dir-empty", "same", "argon-time0"}[(i+c.shard)%12]
@@ -119,6 +128,71 @@ func suiteV18(c *vctx) {
 			raw, loadable = fmt.Sprintf("basedir: %q\ndefault: 2\nparams:\n  - id: 2\n    argon2id:\n      time: 0\n      memory: 8\n      threads: 1\n      length: 16\n", dirB), false
 		}
 		write(nw, raw)
+		// staged: the dispatcher is held inside a login (gate hasher) while requests of every kind
+		// are queued and the signal arrives; released, its select serves the reload and the queued
+		// requests in a random order. Every one of them must be answered, and the queued password
+		// change must have taken effect (in the directory that was live when it was served).
+		{
+			g := &gate{ev: make(chan gateEv), release: make(chan bool)}
+			for id, h := range st.dir.Params {
+				st.dir.Params[id] = &gateHasher{inner: h, set: id, g: g}
+			}
+			type fl struct {
+				name string
+				f    func() bool
+				done chan bool
+			}
+			flights := []*fl{
+				{name: "update", f: func() bool { return iface.Update("flight", "Flight-1") == nil }},
+				{name: "auth", f: func() bool { ok, _, _, err := iface.Authenticate("root", "Root-Passw0rd"); return ok && err == nil }},
+				{name: "list", f: func() bool { _, err := iface.List(); return err == nil }},
+				{name: "update2", f: func() bool { return iface.Update("probe-nobody", "x") != nil }},
+			}
+			holdDone := make(chan bool, 1)
+			go func() { iface.Authenticate("root", "Root-Passw0rd"); holdDone <- true }()
+			held := false
+			select {
+			case <-g.ev:
+				held = true
+			case <-time.After(3 * time.Second):
+			}
+			for _, f := range flights {
+				f.done = make(chan bool, 1)
+				go func(f *fl) { f.done <- f.f() }(f)
+			}
+			time.Sleep(3 * time.Millisecond)
+			syscall.Kill(os.Getpid(), syscall.SIGHUP)
+			time.Sleep(3 * time.Millisecond)
+			g.mu.Lock()
+			g.free = true
+			g.mu.Unlock()
+			if held {
+				g.release <- true
+			}
+			allOk, lost := true, ""
+			for _, f := range append(flights, &fl{name: "hold", done: holdDone}) {
+				select {
+				case ok := <-f.done:
+					allOk = allOk && ok
+					if !ok {
+						lost += f.name + ":wrong-answer,"
+					}
+				case <-time.After(4 * time.Second):
+					allOk = false
+					lost += f.name + ":unanswered,"
+				}
+			}
+			took := false
+			for _, d := range []string{dirA, dirB} {
+				b, _ := os.ReadFile(filepath.Join(d, "flight.user"))
+				// the record was rewritten (a fresh record differs from the bootstrap one) in this directory
+				if ob, ok := flightBoot[d]; !ok || string(ob) != string(b) {
+					took = true
+				}
+			}
+			c.emit(fmt.Sprintf("law.C18.requests_in_flight_answered staged mode=%s kind=%s held=%s lost=%s", vxs(mode), kind, vtf(held), lost), vtf(allOk))
+			c.emit(fmt.Sprintf("law.C18.acknowledged_inflight_update_took_effect staged mode=%s kind=%s", vxs(mode), kind), vtf(!allOk || took))
+		}
 		// clients keep authenticating and updating while the signals arrive
 		stop := make(chan bool)
 		var wg sync.WaitGroup
